@@ -19,6 +19,9 @@ import (
 type HistoryCase struct {
 	Ops    []dbx.Op `json:"ops"`
 	Sparse bool     `json:"sparse"` // the full superuser dump is taken only at the end, not after every call
+	// indices of calls during which the state directory is unavailable: a call that would write then
+	// fails, and a failed call changes nothing - whatever kind of call it is (first put of a name, ...)
+	FailSave []int `json:"fail_save,omitempty"`
 }
 
 func runC02(t *testing.T, hc HistoryCase) (*h.Violation, h.Info) {
@@ -45,6 +48,35 @@ func runC02(t *testing.T, hc HistoryCase) (*h.Violation, h.Info) {
 	for i, op := range hc.Ops {
 		before := tr.M.String()
 		ver := tr.Resolve(op)
+		outage := false
+		for _, f := range hc.FailSave {
+			if f == i && wouldSave(tr.M, op, ver) {
+				outage = true
+			}
+		}
+		if outage {
+			away := dir + ".away"
+			if err := os.Rename(dir, away); err != nil {
+				return finish(h.V("harness", "rename: %v", err))
+			}
+			got := tgt.Do(su, op, ver)
+			if err := os.Rename(away, dir); err != nil {
+				return finish(h.V("harness", "rename back: %v", err))
+			}
+			classes = append(classes, model.Other)
+			info.Class("call-failed-because-the-save-failed")
+			if got.Class == model.OK {
+				return finish(h.V("harness", "step %d %s reported success while the state directory was unavailable (C03/C04 decide that)", i, op))
+			}
+			dump, err := dbx.Dump(d)
+			if err != nil {
+				return finish(h.V("failed-call-changes-nothing", "step %d %s failed (%s) because its save failed; afterwards the superuser dump fails: %v (state before: %s)", i, op, got.Err, err, before))
+			}
+			if diff := dbx.DumpDiff(dump, tr.M); diff != "" {
+				return finish(h.V("failed-call-changes-nothing", "step %d %s failed (%s) because its save failed, yet: %s", i, op, got.Err, diff))
+			}
+			continue
+		}
 		want := tr.Expect(su.Rules, op, ver)
 		got := tgt.Do(su, op, ver)
 		classes = append(classes, want.Class)
@@ -84,10 +116,14 @@ func runC02(t *testing.T, hc HistoryCase) (*h.Violation, h.Info) {
 
 var c02 = &h.Campaign[HistoryCase]{
 	Prop: "C02", Sub: "history",
-	Rule: "rapid: superuser histories (1-40 calls) of put/activate/delete-version/delete/get/get-version/conditional-get/info/list over 3 ordinary names plus \"\" and _internal/x, values from a small pool (re-puts of equal bytes frequent) incl. empty and nil, version selectors resolved against the model (0, active, latest, latest+1, existing[i], deleted[i], 2^32-1, absolute); result and full superuser dump compared with the map model after EVERY call; non-trivial = history contains delete-version->put, delete->re-create, or activate->put on one name; distinct by history",
+	Rule: "rapid: superuser histories (1-40 calls) of put/activate/delete-version/delete/get/get-version/conditional-get/info/list over 3 ordinary names plus \"\" and _internal/x, values from a small pool (re-puts of equal bytes frequent) incl. empty and nil, version selectors resolved against the model (0, active, latest, latest+1, existing[i], deleted[i], 2^32-1, absolute); result and full superuser dump compared with the map model after EVERY call; in one case of four the state directory is unavailable during some calls (a call that would write then fails and must change nothing); non-trivial = history contains delete-version->put, delete->re-create, or activate->put on one name; distinct by history",
 	Quick: 10000, Thorough: 1500000,
 	Gen: func(rt *rapid.T) HistoryCase {
-		return HistoryCase{Ops: dbx.GenHistory(rt, 1, 40), Sparse: rapid.Bool().Draw(rt, "sparse")}
+		hc := HistoryCase{Ops: dbx.GenHistory(rt, 1, 40), Sparse: rapid.Bool().Draw(rt, "sparse")}
+		if rapid.IntRange(0, 3).Draw(rt, "withoutage") == 0 {
+			hc.FailSave = rapid.SliceOfN(rapid.IntRange(0, 20), 1, 4).Draw(rt, "failsave")
+		}
+		return hc
 	},
 	Run: runC02,
 }
